@@ -15,7 +15,7 @@ NAMES = ['x', 'y']
 
 
 class Conc(object):
-    def __init__(self, p, variant=0, taint=False, names=None):
+    def __init__(self, p, variant=0, taint=False, names=None, imports=False):
         self.p = p
         self.par, self.kind, self.uses = p['par'], p['kind'], p['uses']
         self.n = len(self.par)
@@ -30,6 +30,8 @@ class Conc(object):
         self.helpers = ['emit']
         self.variant = variant
         self.taint = taint
+        self.imports = imports      # stores in statement scopes are spelled `import name` (an alias-less import is expensive to rename)
+        self.import_tags = []
         self.src = '\n'.join(self.body(1, 0)) + '\n'
 
     def T(self, s, nm, how):
@@ -97,7 +99,11 @@ class Conc(object):
             r = []
             for nm in self.names:
                 if 'store' in self.u(s, nm):
-                    r.append(pad + '%s = %s' % (self.cn[nm], self.T(s, nm, 'store')))
+                    if self.imports:
+                        self.import_tags.append(int(self.T(s, nm, 'store')))
+                        r.append(pad + 'import %s' % self.cn[nm])
+                    else:
+                        r.append(pad + '%s = %s' % (self.cn[nm], self.T(s, nm, 'store')))
             return r
         if self.variant == 0:
             out += stores() + loads()
@@ -162,6 +168,22 @@ def read_back(out_src, conc):
                     break
         if isinstance(node, ast.Lambda) and isinstance(node.body, ast.Tuple) and node.body.elts and marker_of(node.body.elts[0]) is not None:
             scope_nodes[marker_of(node.body.elts[0])] = node
+    # alias-less imports of the generated program, in document order
+    if conc.import_tags:
+        imps = []
+
+        def order(node):
+            for ch in ast.iter_child_nodes(node):
+                if isinstance(ch, ast.Import):
+                    for a in ch.names:
+                        if a.name in conc.cn.values():
+                            imps.append(a.asname or a.name)
+                order(ch)
+        order(t)
+        if len(imps) != len(conc.import_tags):
+            return None, None
+        for tag, nm in zip(conc.import_tags, imps):
+            found[tag] = nm
     # parameters: k-th parameter of the scope's function, matched through the call-site tag order
     for s in range(2, conc.n + 1):
         if conc.kind[s - 1] in ('f', 'l'):
@@ -215,11 +237,18 @@ def run_logged(src):
         return value
     emit.k = 0
     ns = {'emit': emit, '__name__': 'scopeprog'}
+    import types
+    fake = [n for n in ('xx', 'yy', 'A', 'B') if n not in sys.modules]
+    for n in fake:
+        sys.modules[n] = types.ModuleType(n)
     try:
         exec(compile(src, 'scopeprog', 'exec'), ns)
         exc = ''
     except BaseException as e:  # noqa
         exc = type(e).__name__
+    finally:
+        for n in fake:
+            sys.modules.pop(n, None)
     return log, exc
 
 
@@ -227,7 +256,7 @@ def observe(job):
     """job: {id, p, variant, opts: {rl, rg, taint, presL, presG}}.  Returns the Trace_Rename observation record (or a skip marker)."""
     import python_minifier
     o = job['opts']
-    conc = Conc(job['p'], variant=job.get('variant', 0), taint=o.get('taint', False))
+    conc = Conc(job['p'], variant=job.get('variant', 0), taint=o.get('taint', False), names=job.get('names'), imports=job.get('imports', False))
     src = conc.src
     try:
         compile(src, 'in', 'exec')
